@@ -46,6 +46,9 @@ def _worker(task):
                               executor_cls=getattr(pack, "EXECUTOR", verify.Executor), executor_kw=kw)
     if os.environ.get("PYVC_TIMING"):
         print(f"[timing] {c.target.split('::')[-1]} {time.time() - t0:.1f}s", file=sys.stderr, flush=True)
+    hook = getattr(pack, "post_report", None)     # optional pack hook: adjust a function report (e.g. solver models that
+    if hook is not None:                           # interpret uninterpreted spec functions are not refutations: -> unknown)
+        hook(c, rep)
     return rep.to_dict()
 
 
